@@ -97,8 +97,8 @@ pub fn run(ctx: &mut Ctx) {
             continue;
         }
         let has_raw = { let mut r = false; crate::refmodel::visit(&doc, &mut |n, _| { if matches!(n.kind, Kind::RawLeaf(_)) { r = true; } }, 0); r };
-        if has_raw {
-            continue; // the strict reader does not accept unknown ids
+        if has_raw || !crate::refmodel::encodable(&doc) {
+            continue; // the strict reader does not accept unknown ids / the explicit width cannot hold the size
         }
         ctx.count("size_boundary_docs", 1);
         let (bytes, _) = ref_encode(&doc);
